@@ -9,6 +9,7 @@ import copy
 import json
 
 import common
+import crowd
 import scen
 
 PROP = "C04"
@@ -319,6 +320,8 @@ def main(ctx):
     for p in common.pmap(shard, [(ctx.bin, ctx.seed, s, n) for s in range(common.NPROC)]):
         res.merge(p)
     twins(ctx.bin, res, ctx.seed)
+    for p in common.pmap(crowd.signature_lists, [(ctx.bin, ctx.seed, PROP, s, 7 if not ctx.thorough else 42, judge) for s in range(4 if not ctx.thorough else common.NPROC)]):
+        res.merge(p)
     returned_layout(ctx.bin, res, ctx.seed, 40 if not ctx.thorough else 800)
     return common.finish(
         PROP, ctx.tier, ctx.seed, res, t0=ctx.t0,
@@ -329,7 +332,7 @@ def main(ctx):
              "(entries, authorised, threshold, content)",
         assumptions=["ground truth of signature validity is by construction (who signed which bytes, what was edited)",
                      "ring's primitives are correct"],
-        required=["accepted", "rejected", "t=0", "t>n", "kind:dup", "kind:resign", "kind:mislabeled",
+        required=["crowd:block:ok", "crowd:block:err", "crowd:size:48", "crowd:size:33", "accepted", "rejected", "t=0", "t>n", "kind:dup", "kind:resign", "kind:mislabeled",
                   "kind:flipped", "kind:unauthorised", "kind:other_content", "kind:unknown_scheme_key", "kind:auth_key_declares_second_id",
                   "kind:auth_key_declares_other_id", "kind:replayed_after_genuine_verification", "kind:history_genuine_other_content", "kind:twin_control", "kind:twin_signature_on_other_twin",
                   "kind:signature_over_reference_bytes", "kind:returned_layout:control", "kind:returned_layout:foreign_key_under_made_up_id", "once", "repeated-labels",
